@@ -221,11 +221,14 @@ def prefixStates (s : GasState) : List Nat → List GasState
     | _ => [s]
 
 /-- after-states admissible when the instruction panicked for a reason other than OutOfGas:
-    it stopped between two charges, or (CALL) after the forwarded gas had been deducted. -/
+    it stopped between two charges, or (CALL) after the forwarded gas had been deducted, or (RET/RETD in a
+    call) after the frame was popped and its gas credited but the receipt push failed. -/
 def panicStates (s : GasState) (mn : String) (args : List Nat) (charges : List Nat) : List GasState :=
   let ps := prefixStates s charges
-  if mn = "CALL" ∧ ps.length = charges.length + 1 then
-    ps ++ [forwardAbort (ps.getLastD s) (args.getD 3 0)]
+  if ps.length = charges.length + 1 then
+    if mn = "CALL" then ps ++ [forwardAbort (ps.getLastD s) (args.getD 3 0)]
+    else if mn = "RET" ∨ mn = "RETD" then ps ++ [(returnGas (ps.getLastD s)).1]
+    else ps
   else ps
 
 end FuelVerif.Gas
